@@ -625,8 +625,11 @@ class DeserializationMethodVisitor(
                     if fact.cls is not NoneType
                 )
                 return OptionalMethod(value_method, self.coercer)
-            elif len(method_by_cls) == len(alt_factories) and not any(
-                isinstance(x, CoercerMethod) for x in alt_methods
+            elif (
+                len(method_by_cls) == len(alt_factories)
+                and not any(isinstance(x, CoercerMethod) for x in alt_methods)
+                # an integer can match both int and float alternatives
+                and not (int in method_by_cls and float in method_by_cls)
             ):
                 # Coercion induces a different type in data than type to deserialize.
                 # Prefer UnionMethod in this case.
